@@ -567,7 +567,13 @@ impl SpannedExpr {
                         break;
                     }
                 }
-                Ok(result)
+                // the result has the width the options share, also when the selected
+                // option (or the absence of one) is an unsized constant
+                let mut width = WireWidth::Unlimited;
+                for ref option in options {
+                    width = width.combine(option.value.evaluated_width(wires)).unwrap_or(width);
+                }
+                Ok(result.as_width(width))
             },
             Expr::NamedWire(ref name) => match wires.get(name) {
                 Some(value) => Ok(*value),
@@ -609,6 +615,41 @@ impl SpannedExpr {
             }
             /* panic since we should report error at parse-time instead */
             Expr::Error => panic!("expression did not parse correctly"),
+        }
+    }
+
+    // the width of the value evaluate() produces, found without evaluating
+    fn evaluated_width<'a>(&self, wires: &'a WireValues) -> WireWidth {
+        match *self.expr {
+            Expr::Constant(value) => value.width,
+            Expr::BinOp(opcode, ref left, ref right) => {
+                let left_width = left.evaluated_width(wires);
+                let right_width = right.evaluated_width(wires);
+                match opcode.kind() {
+                    BinOpKind::BooleanCombine | BinOpKind::BooleanFromEqualWidth => WireWidth::Bits(1),
+                    BinOpKind::EqualWidthWeak if !STRICT_WIDTHS_BINARY => left_width.max(right_width),
+                    _ => left_width.combine(right_width).unwrap_or(left_width),
+                }
+            },
+            Expr::UnOp(UnOpCode::Not, _) => WireWidth::Bits(1),
+            Expr::UnOp(_, ref inner) => inner.evaluated_width(wires),
+            Expr::Mux(ref options) => {
+                let mut width = WireWidth::Unlimited;
+                for ref option in options {
+                    width = width.combine(option.value.evaluated_width(wires)).unwrap_or(width);
+                }
+                width
+            },
+            Expr::NamedWire(ref name) => wires.get(name).map_or(WireWidth::Unlimited, |value| value.width),
+            Expr::BitSelect { low, high, .. } => WireWidth::Bits(high.saturating_sub(low)),
+            Expr::Concat(ref left, ref right) =>
+                match (left.evaluated_width(wires), right.evaluated_width(wires)) {
+                    (WireWidth::Bits(left_bits), WireWidth::Bits(right_bits)) =>
+                        WireWidth::Bits(left_bits.saturating_add(right_bits)),
+                    _ => WireWidth::Unlimited,
+                },
+            Expr::InSet(_, _) => WireWidth::Bits(1),
+            Expr::Error => WireWidth::Unlimited,
         }
     }
 
